@@ -147,6 +147,141 @@ theorem listener_order_partial (cfg : Cfg) (progs : List (List Call)) (es : List
       simpa [owedL, this] using h0.symm
   exact ⟨hl, by rw [hl]; exact log_is_path cfg (run_reachable cfg progs es)⟩
 
+/-! ### Exact characterisation of the listener order (still: *not* a C12 clause — documentation of the boundary)
+
+`listener_order_partial` has a sufficient condition (`QuietRun`).  The exact one: call a point of the run *in order* when the
+listener log is a prefix of the transition history (every call so far was the call for the oldest transition still
+unreported).  The region, defined on the run alone: some schedule entry takes the run from an in-order point to a point
+that is not in order (a listener call overtakes an older, still unreported transition).  `listener_order_iff`: at a
+quiescent end the log *is* the history **iff** the run stays outside that region; leaving is permanent
+(`inOrder_permanent`). -/
+
+def InOrder (c : Conf) : Prop := c.sh.log <+: c.sh.hist
+
+def OrderRegion (cfg : Cfg) (c : Conf) (es : List Ent) : Prop :=
+  ∃ es₁ e r, es = es₁ ++ e :: r ∧ InOrder (run cfg c es₁) ∧ ¬ InOrder (run cfg c (es₁ ++ [e]))
+
+theorem run_append (cfg : Cfg) (a b : List Ent) : ∀ c : Conf, run cfg c (a ++ b) = run cfg (run cfg c a) b := by
+  induction a with
+  | nil => intro c; rfl
+  | cons e r ih => intro c; exact ih (c.exec cfg e)
+
+/-- both lists only grow, at the end -/
+theorem exec_appends (cfg : Cfg) (c : Conf) (e : Ent) :
+    (∃ x, (c.exec cfg e).sh.log = c.sh.log ++ x) ∧ (∃ y, (c.exec cfg e).sh.hist = c.sh.hist ++ y) := by
+  cases e with
+  | tick ms => exact ⟨⟨[], by simp [Conf.exec, Conf.tick]⟩, ⟨[], by simp [Conf.exec, Conf.tick]⟩⟩
+  | t i =>
+    simp only [Conf.exec]
+    unfold Conf.sched
+    cases hth : c.th[i]? with
+    | none => exact ⟨⟨[], by simp⟩, ⟨[], by simp⟩⟩
+    | some t =>
+      constructor
+      · rcases step_log cfg i c.sh t with h | ⟨p, q, h, _⟩
+        · exact ⟨[], by simp [h]⟩
+        · exact ⟨_, h⟩
+      · rcases step_transition cfg i c.sh t with h | h
+        · exact ⟨[], by simp [h.2]⟩
+        · exact ⟨_, h.1⟩
+
+/-- never more calls than transitions -/
+theorem log_length_le (cfg : Cfg) {c : Conf} (h : Reach cfg c) : c.sh.log.length ≤ c.sh.hist.length := by
+  apply List.Subperm.length_le
+  rw [List.subperm_ext_iff]
+  intro k _
+  have := transition_once cfg h k
+  omega
+
+/-- once a call has overtaken an older unreported transition the log never becomes a prefix of the history again -/
+theorem inOrder_permanent (cfg : Cfg) {c : Conf} (h : Reach cfg c) (e : Ent) (hn : ¬ InOrder c) : ¬ InOrder (c.exec cfg e) := by
+  intro hi
+  obtain ⟨⟨x, hx⟩, ⟨y, hy⟩⟩ := exec_appends cfg c e
+  unfold InOrder at hi hn
+  rw [hx, hy] at hi
+  have h1 : c.sh.log <+: c.sh.hist ++ y := (List.prefix_append _ _).trans hi
+  exact hn (List.prefix_of_prefix_length_le h1 (List.prefix_append _ _) (log_length_le cfg h))
+
+theorem reach_exec (cfg : Cfg) {c : Conf} (h : Reach cfg c) (e : Ent) : Reach cfg (c.exec cfg e) := by
+  cases e with
+  | t i => exact Reach.step i h
+  | tick ms => exact Reach.tick ms h
+
+theorem run_not_inOrder (cfg : Cfg) (es : List Ent) : ∀ c : Conf, Reach cfg c → ¬ InOrder c → ¬ InOrder (run cfg c es) := by
+  induction es with
+  | nil => intro c _ hn; exact hn
+  | cons e r ih => intro c h hn; exact ih _ (reach_exec cfg h e) (inOrder_permanent cfg h e hn)
+
+theorem run_inOrder_iff (cfg : Cfg) (es : List Ent) :
+    ∀ c : Conf, Reach cfg c → InOrder c → (InOrder (run cfg c es) ↔ ¬ OrderRegion cfg c es) := by
+  induction es with
+  | nil =>
+    intro c _ hi
+    constructor
+    · rintro _ ⟨es₁, e, r, hes, _⟩
+      cases es₁ <;> cases hes
+    · intro _; exact hi
+  | cons e r ih =>
+    intro c h hi
+    by_cases h1 : InOrder (c.exec cfg e)
+    · have := ih _ (reach_exec cfg h e) h1
+      show InOrder (run cfg (c.exec cfg e) r) ↔ _
+      rw [this]
+      constructor
+      · rintro hn ⟨es₁, e', r', hes, ha, hb⟩
+        cases es₁ with
+        | nil =>
+          simp only [List.nil_append, List.cons.injEq] at hes
+          obtain ⟨rfl, rfl⟩ := hes
+          exact hb h1
+        | cons a es₁' =>
+          simp only [List.cons_append, List.cons.injEq] at hes
+          obtain ⟨rfl, rfl⟩ := hes
+          exact hn ⟨es₁', e', r', rfl, ha, hb⟩
+      · rintro hn ⟨es₁, e', r', hes, ha, hb⟩
+        exact hn ⟨e :: es₁, e', r', by rw [hes]; rfl, ha, hb⟩
+    · constructor
+      · intro hfin
+        exact absurd hfin (run_not_inOrder cfg r _ (reach_exec cfg h e) h1)
+      · intro hn
+        exact absurd ⟨[], e, r, rfl, hi, h1⟩ hn
+
+/-- **listener_order_iff.** At a quiescent end of any run from `init`: the listener log equals the transition history,
+    in order, **iff** no schedule entry of the run lets a listener call overtake an older unreported transition. -/
+theorem listener_order_iff (cfg : Cfg) (progs : List (List Call)) (es : List Ent)
+    (hdone : ∀ t ∈ (run cfg (init cfg progs) es).th, t.pc.owes = none) :
+    (run cfg (init cfg progs) es).sh.log = (run cfg (init cfg progs) es).sh.hist ↔
+      ¬ OrderRegion cfg (init cfg progs) es := by
+  have hr0 := reach_init cfg progs
+  have hi0 : InOrder (init cfg progs) := by
+    obtain ⟨h1, h2, _⟩ := startAll_frame cfg progs {}
+    unfold InOrder
+    simp only [init, initFrom]
+    rw [h1, h2]
+  rw [← run_inOrder_iff cfg es _ hr0 hi0]
+  constructor
+  · intro h; unfold InOrder; rw [h]
+  · intro h
+    have hp := transition_once_quiescent cfg (run_reachable cfg progs es) hdone
+    exact List.IsPrefix.eq_of_length h hp.length_eq
+
+/-- the region is inhabited (the documented reordering run) … -/
+theorem orderRegion_inhabited :
+    OrderRegion cfg10 (init cfg10 [[.complete 1 true, .tryPass false, .complete 1 false], [.complete 1 true]])
+      (sch [0, 0, 0, 0] ++ [.tick 10] ++ sch [0, 0, 0, 0, 0, 0, 0, 1, 1, 1, 1, 0]) := by
+  by_contra h
+  have hd : ∀ t ∈ orderRun.th, t.pc.owes = none := by decide
+  have := (listener_order_iff cfg10 _ _ hd).mpr h
+  have h2 : orderRun.sh.log ≠ orderRun.sh.hist := by decide
+  exact h2 this
+
+/-- … and so is its complement: a `QuietRun` never enters it -/
+theorem quietRun_not_in_orderRegion (cfg : Cfg) (progs : List (List Call)) (es : List Ent)
+    (hq : QuietRun cfg (init cfg progs) es)
+    (hdone : ∀ t ∈ (run cfg (init cfg progs) es).th, t.pc.owes = none) :
+    ¬ OrderRegion cfg (init cfg progs) es :=
+  (listener_order_iff cfg progs es hdone).mp (listener_order_partial cfg progs es hq hdone).1
+
 /-- decidable form of `QuietAt` / `QuietRun` (to exhibit schedules satisfying the hypothesis) -/
 def quietAtB (c : Conf) (i : Nat) : Bool :=
   (List.range c.th.length).all fun j =>
@@ -357,6 +492,126 @@ theorem early_is_classified (cfg : Cfg) {c : Conf} (h : Reach cfg c) (he : c.sh.
     | true => exact Or.inr rfl
     | false => rw [hA, hB] at h1; exact absurd h1 (by decide)
 
+/-! ### Exact characterisation: the clause fails on a run iff the run enters the findings' region
+
+The *region* is defined on the run alone (no monitor field): at some point of the schedule the thread that is granted the
+next step is parked before `cas(Open,HalfOpen)`, the state word is Open, less than a full retry timeout has elapsed since
+the breaker opened — and (this is what the two findings are) the deadline check that brought the thread there was made
+during an earlier opening (`stale-retry-check`) or before the deadline of the current opening had been stored
+(`open-without-deadline`).  `no_early_admission_iff`: on every run from `init`, "no probe is admitted before a full retry
+timeout since the breaker opened" holds **iff** the run stays outside the region.  The last conjunct of the region is
+implied by the rest on reachable configurations (`no_early_admission_partial`): it is not an extra restriction, it says
+*where* such a point can lie. -/
+
+/-- thread `i` of `c` is about to win `cas(Open,HalfOpen)` before a full retry timeout has elapsed since the opening -/
+def EarlyWin (cfg : Cfg) (c : Conf) (i : Nat) : Prop :=
+  ∃ t, c.th[i]? = some t ∧ earlyWinB cfg c.sh t = true
+
+/-- …and its deadline check belongs to one of the two classified windows: made during an earlier opening, or before the
+    deadline of the current opening was stored -/
+def InWindow (c : Conf) (i : Nat) : Prop :=
+  ∃ t blk ep fr, c.th[i]? = some t ∧ t.pc = .tpCas blk ep fr ∧ (ep ≠ c.sh.epoch ∨ fr = false)
+
+/-- the region of the findings `open-without-deadline` / `stale-retry-check`, on a run: some schedule entry grants a
+    step to a thread that is in that situation -/
+def EarlyRegion (cfg : Cfg) (c : Conf) (es : List Ent) : Prop :=
+  ∃ es₁ i r, es = es₁ ++ Ent.t i :: r ∧ EarlyWin cfg (run cfg c es₁) i ∧ InWindow (run cfg c es₁) i
+
+theorem sched_early (cfg : Cfg) (c : Conf) (i : Nat) :
+    (c.sched cfg i).sh.early = true ↔ c.sh.early = true ∨ EarlyWin cfg c i := by
+  unfold Conf.sched EarlyWin
+  cases hth : c.th[i]? with
+  | none => simp
+  | some t => simp [step_early_eq]
+
+theorem run_early_iff (cfg : Cfg) (es : List Ent) :
+    ∀ c : Conf, (run cfg c es).sh.early = true ↔
+      c.sh.early = true ∨ ∃ es₁ i r, es = es₁ ++ Ent.t i :: r ∧ EarlyWin cfg (run cfg c es₁) i := by
+  induction es with
+  | nil => intro c; simp [run]
+  | cons e r ih =>
+    intro c
+    have h1 : run cfg c (e :: r) = run cfg (c.exec cfg e) r := rfl
+    rw [h1, ih]
+    constructor
+    · rintro (h | ⟨es₁, i, r', hr, hw⟩)
+      · cases e with
+        | tick ms => exact Or.inl h
+        | t j =>
+          rcases (sched_early cfg c j).mp h with h | h
+          · exact Or.inl h
+          · exact Or.inr ⟨[], j, r, rfl, h⟩
+      · exact Or.inr ⟨e :: es₁, i, r', by rw [hr]; rfl, hw⟩
+    · rintro (h | ⟨es₁, i, r', hr, hw⟩)
+      · cases e with
+        | tick ms => exact Or.inl h
+        | t j => exact Or.inl ((sched_early cfg c j).mpr (Or.inl h))
+      · cases es₁ with
+        | nil =>
+          simp only [List.nil_append, List.cons.injEq] at hr
+          obtain ⟨rfl, rfl⟩ := hr
+          exact Or.inl ((sched_early cfg c i).mpr (Or.inr hw))
+        | cons a es₁' =>
+          simp only [List.cons_append, List.cons.injEq] at hr
+          obtain ⟨rfl, rfl⟩ := hr
+          exact Or.inr ⟨es₁', i, r', rfl, hw⟩
+
+/-- on a reachable configuration, a thread about to win the probe early is necessarily in one of the two windows -/
+theorem earlyWin_inWindow (cfg : Cfg) {c : Conf} (h : Reach cfg c) (i : Nat) (hw : EarlyWin cfg c i) : InWindow c i := by
+  obtain ⟨t, hth, he⟩ := hw
+  unfold earlyWinB at he
+  split at he
+  · rename_i blk ep fr hpc
+    simp only [Bool.and_eq_true, beq_iff_eq, decide_eq_true_eq] at he
+    refine ⟨t, blk, ep, fr, hth, hpc, ?_⟩
+    by_contra hn
+    push_neg at hn
+    have hfr : fr = true := by cases fr <;> simp_all
+    have := no_early_admission_partial cfg h i t hth blk ep fr hpc hfr hn.1
+    omega
+  · cases he
+
+theorem startAll_early (cfg : Cfg) (ps : List (List Call)) : ∀ s : Sh, (startAll cfg s ps).1.early = s.early := by
+  induction ps with
+  | nil => intro s; rfl
+  | cons q qs ih => intro s; simp [startAll, ih]
+
+/-- **no_early_admission_iff.** On every run (any threads, programs, schedule): no probe is admitted before a full retry
+    timeout has elapsed since the breaker opened **iff** the run stays outside the region of the two findings. -/
+theorem no_early_admission_iff (cfg : Cfg) (progs : List (List Call)) (es : List Ent) :
+    (run cfg (init cfg progs) es).sh.early = false ↔ ¬ EarlyRegion cfg (init cfg progs) es := by
+  have hinit : (init cfg progs).sh.early = false := startAll_early cfg progs {}
+  constructor
+  · intro h ⟨es₁, i, r, hes, hw, _⟩
+    have := (run_early_iff cfg es (init cfg progs)).mpr (Or.inr ⟨es₁, i, r, hes, hw⟩)
+    rw [h] at this; cases this
+  · intro h
+    by_contra hne
+    have he : (run cfg (init cfg progs) es).sh.early = true := by
+      cases hx : (run cfg (init cfg progs) es).sh.early with
+      | true => rfl
+      | false => exact absurd hx hne
+    rcases (run_early_iff cfg es (init cfg progs)).mp he with h0 | ⟨es₁, i, r, hes, hw⟩
+    · rw [hinit] at h0; cases h0
+    · exact h ⟨es₁, i, r, hes, hw, earlyWin_inWindow cfg (run_reachable cfg progs es₁) i hw⟩
+
+/-- the region is inhabited: the witness runs of both findings lie in it … -/
+theorem earlyRegion_inhabited :
+    EarlyRegion cfg1000 (init cfg1000 [[.complete 1 true], [.tryPass false]]) (sch [0, 0, 0, 1, 1, 1]) ∧
+    EarlyRegion cfg10 (init cfg10 [[.complete 1 true], [.tryPass false], [.tryPass false, .complete 1 false, .complete 1 true]])
+      (sch [0, 0, 0, 0] ++ [.tick 10] ++ sch [1, 1, 2, 2, 2, 2, 2, 2, 2, 2, 2, 2, 2, 2, 1]) := by
+  constructor
+  · by_contra h
+    have := (no_early_admission_iff cfg1000 _ _).mpr h
+    exact absurd (show earlyRun.sh.early = false from this) (by rw [early_probe_witness.1]; decide)
+  · by_contra h
+    have := (no_early_admission_iff cfg10 _ _).mpr h
+    exact absurd (show abaRun.sh.early = false from this) (by rw [aba_witness.1]; decide)
+
+/-- … and so is its complement (non-vacuity of the other direction): the sequential run of the same two calls -/
+example : ¬ EarlyRegion cfg1000 (init cfg1000 [[.complete 1 true], [.tryPass false]]) (sch [0, 0, 0, 0, 1, 1, 1]) :=
+  (no_early_admission_iff cfg1000 _ _).mp (by decide)
+
 /-- the deadline, once stored after an opening, is a full timeout after that opening -/
 theorem stored_deadline_is_full_timeout (cfg : Cfg) {c : Conf} (h : Reach cfg c) (hf : c.sh.fresh = true) :
     c.sh.openedAt + cfg.timeout ≤ c.sh.deadline :=
@@ -448,6 +703,315 @@ theorem first_load_is_breaker (rules : List RuleE) : WOK (({} : World).rebuild r
 theorem reload_no_early_admission_outside_windows (w : World) (h : WOK w) (o : Obj) (ho : o ∈ w.objs) :
     o.conf.sh.earlyOut = false ∧ walk .closed o.conf.sh.hist = some o.conf.sh.st :=
   ⟨no_early_admission_outside_windows o.cfg (h o ho), log_is_path o.cfg (h o ho)⟩
+
+/-! ## exit hooks: an entry rolls back only breakers it probed; an entry-less context never rolls back
+
+`WT.rollSet`: the breakers a harness thread's entry under way may still roll back (hooks registered so far + the rollback
+under way).  It is empty when an item starts (`advance_rollSet`), it grows only by the breaker `k` whose `TryPass` — a call
+of this very entry — has just been admitted as the winner of `cas(Open,HalfOpen)`, and only if the context carries an
+entry (`afterCall_rollSet`, `wtstep_rollSet`); a rollback call is bound only to a member of it (`startRoll_rollSet`).
+Hence, in every reachable world (any number of breakers per resource, reloads included): a HalfOpen→Open rollback of
+breaker `k` is only ever performed by a thread whose current entry won a probe on `k`, and a `tpn` check never rolls back
+(`noEntry_never_rolls_back`).  These are step invariants of `WT.step`; `wrun` only iterates `WT.step`. -/
+
+def _root_.Sentinel.BreakerRace.WT.rollSet (t : WT) : List Nat :=
+  match t.phase with
+  | .checking _ hooks _ _ => hooks
+  | .rolling rest => (t.cur.map (·.1)).toList ++ rest
+  | _ => []
+
+/-- a new item starts with no hooks (and never in the middle of a rollback) -/
+theorem advance_rollSet (todo : List WCall) : ∀ (w : World) (res : List Bool), (advance w res todo).2.rollSet = [] := by
+  induction todo with
+  | nil => intro w res; rfl
+  | cons c r ih =>
+    intro w res
+    cases c with
+    | check fb ne =>
+      unfold advance
+      split
+      · exact ih _ _
+      · rfl
+    | complete rt err =>
+      unfold advance
+      split
+      · exact ih _ _
+      · rfl
+    | load rules noop nx => rfl
+
+/-- the exit hooks are run in order: the rollback bound next is the head of the list, the rest stays -/
+theorem startRoll_rollSet (w : World) (t : WT) (hs : List Nat) : (startRoll w t hs).2.rollSet = hs := by
+  cases hs with
+  | nil => exact advance_rollSet _ _ _
+  | cons h r => simp [startRoll, WT.rollSet]
+
+/-- after a breaker call of the entry has returned: the set is the old one, possibly plus the breaker `k` just asked —
+    only if its TryPass returned true **as the probe winner** and the context carries an entry -/
+theorem afterCall_rollSet (w : World) (t : WT) (k : Nat) (b won : Bool) :
+    ∀ h ∈ (afterCall w t k b won).2.rollSet,
+      h ∈ t.rollSet ∨ (h = k ∧ b = true ∧ won = true ∧ ∃ rest hooks fb, t.phase = .checking rest hooks fb false) := by
+  intro h hh
+  unfold afterCall at hh
+  cases hp : t.phase with
+  | checking rest hooks fb ne =>
+    rw [hp] at hh
+    have hrs : t.rollSet = hooks := by simp [WT.rollSet, hp]
+    cases b with
+    | false =>
+      simp only [Bool.false_eq_true, if_false] at hh
+      rw [startRoll_rollSet] at hh
+      exact Or.inl (hrs ▸ hh)
+    | true =>
+      simp only [if_true] at hh
+      have hmem : ∀ x ∈ (if (won && !ne) = true then hooks ++ [k] else hooks),
+          x ∈ hooks ∨ (x = k ∧ won = true ∧ ne = false) := by
+        intro x hx
+        split_ifs at hx with hc
+        · simp only [Bool.and_eq_true, Bool.not_eq_true'] at hc
+          rcases List.mem_append.mp hx with hx | hx
+          · exact Or.inl hx
+          · exact Or.inr ⟨by simpa using hx, hc.1, hc.2⟩
+        · exact Or.inl hx
+      have fin : ∀ x ∈ (if (won && !ne) = true then hooks ++ [k] else hooks),
+          x ∈ t.rollSet ∨ (x = k ∧ true = true ∧ won = true ∧
+            ∃ rest' hooks' fb', Phase.checking rest hooks fb ne = Phase.checking rest' hooks' fb' false) := by
+        intro x hx
+        rcases hmem x hx with hx | ⟨h1, h2, h3⟩
+        · exact Or.inl (hrs ▸ hx)
+        · exact Or.inr ⟨h1, rfl, h2, rest, hooks, fb, by rw [h3]⟩
+      cases rest with
+      | cons k2 ks =>
+        simp only [WT.rollSet] at hh
+        exact fin h hh
+      | nil =>
+        cases fb with
+        | true =>
+          simp only [if_true] at hh
+          rw [startRoll_rollSet] at hh
+          exact fin h hh
+        | false =>
+          simp only [Bool.false_eq_true, if_false] at hh
+          rw [advance_rollSet] at hh
+          cases hh
+  | rolling rest =>
+    rw [hp] at hh
+    simp only at hh
+    rw [startRoll_rollSet] at hh
+    exact Or.inl (by simp [WT.rollSet, hp, hh])
+  | completing rest rt err =>
+    rw [hp] at hh
+    cases rest with
+    | cons k2 ks => simp [WT.rollSet] at hh
+    | nil => simp only at hh; rw [advance_rollSet] at hh; cases hh
+  | idle => rw [hp] at hh; simp only at hh; rw [advance_rollSet] at hh; cases hh
+  | loading _ _ _ => rw [hp] at hh; simp only at hh; rw [advance_rollSet] at hh; cases hh
+  | rebuilding _ _ => rw [hp] at hh; simp only at hh; rw [advance_rollSet] at hh; cases hh
+
+/-- **Step invariant.** Whatever a harness thread may roll back after a step, it could already roll back before, or it
+    is the breaker `k` of the call `(k, j)` that has just returned with its admission recorded as *probe won by that very
+    call* on `k`, through a context that carries an entry. -/
+theorem wtstep_rollSet (w : World) (t : WT) :
+    ∀ h ∈ (t.step w).2.rollSet,
+      h ∈ t.rollSet ∨
+      (∃ j, t.cur = some (h, j) ∧
+        (((w.step h j).objs[h]?).bind fun o => o.conf.sh.admits.getLast?) = some (j, How.probeWin) ∧
+        ∃ rest hooks fb, t.phase = .checking rest hooks fb false) := by
+  intro h hh
+  unfold WT.step at hh
+  split at hh
+  · split_ifs at hh
+    · rw [advance_rollSet] at hh; cases hh
+    · rw [advance_rollSet] at hh; cases hh
+    · simp [WT.rollSet] at hh
+  · split_ifs at hh
+    · rw [advance_rollSet] at hh; cases hh
+    · simp [WT.rollSet] at hh
+  · split at hh
+    · exact Or.inl hh
+    · rename_i k j hcur
+      split at hh
+      · rename_i th adm hsome
+        split_ifs at hh
+        · rcases afterCall_rollSet _ _ _ _ _ h hh with h1 | ⟨rfl, _, hwon, hph⟩
+          · exact Or.inl h1
+          · refine Or.inr ⟨j, hcur, ?_, hph⟩
+            cases ho : (w.step h j).objs[h]? with
+            | none => rw [ho] at hsome; cases hsome
+            | some o =>
+              rw [ho] at hsome
+              simp only [Option.bind_some, Option.map_eq_some_iff] at hsome
+              obtain ⟨th', _, heq⟩ := hsome
+              cases heq
+              simpa using hwon
+        · exact Or.inl hh
+      · exact Or.inl hh
+
+/-- a check through a context without `SentinelEntry` keeps its hook list empty … -/
+theorem noEntry_afterCall (w : World) (t : WT) (k : Nat) (b won : Bool) (rest : List Nat) (fb : Bool)
+    (hp : t.phase = .checking rest [] fb true) : (afterCall w t k b won).2.rollSet = [] := by
+  apply List.eq_nil_iff_forall_not_mem.mpr
+  intro h hh
+  rcases afterCall_rollSet w t k b won h hh with h1 | ⟨_, _, _, r, hk, f, hph⟩
+  · simp [WT.rollSet, hp] at h1
+  · rw [hp] at hph; cases hph
+
+/-- … so it never installs a rollback: **after every breaker call of a `tpn` check the hook list is still empty, and no
+    rollback is under way** (a `rolling` phase would carry the breaker being rolled back in `cur`, which `rollSet` contains) -/
+theorem noEntry_never_rolls_back (w : World) (t : WT) (k : Nat) (b won : Bool) (rest : List Nat) (fb : Bool)
+    (hp : t.phase = .checking rest [] fb true) :
+    (∀ rest' hooks' fb' ne', (afterCall w t k b won).2.phase = .checking rest' hooks' fb' ne' → hooks' = []) ∧
+    (∀ r, (afterCall w t k b won).2.phase = .rolling r → (afterCall w t k b won).2.cur = none ∧ r = []) := by
+  have h0 := noEntry_afterCall w t k b won rest fb hp
+  constructor
+  · intro rest' hooks' fb' ne' hph
+    simpa [WT.rollSet, hph] using h0
+  · intro r hph
+    simp only [WT.rollSet, hph, List.append_eq_nil_iff] at h0
+    refine ⟨?_, h0.2⟩
+    cases hc : (afterCall w t k b won).2.cur with
+    | none => rfl
+    | some p => rw [hc] at h0; simp at h0
+
+/-! ## per-resource reloads with inner yield points: a request sees the old list or the new one, never a mixture
+
+The snapshot a check / completion walks over is taken in `advance` (`k :: rest` = the breaker asked first and those still
+to ask).  `advance_snapshot`: it **is** the list published at that moment.  `wtstep_list`: the published list changes only in
+the step that completes a load, and then to the complete rebuilt list; the steps of a load before that — the yield points
+`cb.x.reload` / `cb.x.rebuild` inside `LoadRulesOfResource` — leave the whole world untouched
+(`rebuild_invisible_until_published`), and no other kind of step changes the list.  So every snapshot taken at any point of
+any run equals the list most recently published — the old one or the new one. -/
+
+theorem advance_keeps_list (todo : List WCall) : ∀ (w : World) (res : List Bool), (advance w res todo).1.cur = w.cur := by
+  induction todo with
+  | nil => intro w res; rfl
+  | cons c r ih =>
+    intro w res
+    cases c with
+    | check fb ne =>
+      unfold advance
+      split
+      · exact ih _ _
+      · exact world_bind_keeps_list _ _ _
+    | complete rt err =>
+      unfold advance
+      split
+      · exact ih _ _
+      · exact world_bind_keeps_list _ _ _
+    | load rules noop nx => rfl
+
+/-- **the snapshot clause**: the list a check / completion starts to walk over is the published list of that moment -/
+theorem advance_snapshot (todo : List WCall) : ∀ (w : World) (res : List Bool) (k j : Nat) (rest : List Nat),
+    (advance w res todo).2.cur = some (k, j) →
+    ((∃ hooks fb ne, (advance w res todo).2.phase = .checking rest hooks fb ne) ∨
+     (∃ rt err, (advance w res todo).2.phase = .completing rest rt err)) →
+    k :: rest = w.cur := by
+  induction todo with
+  | nil => intro w res k j rest hc _; cases hc
+  | cons c r ih =>
+    intro w res k j rest hc hp
+    cases c with
+    | check fb ne =>
+      unfold advance at hc hp
+      split at hc
+      · rename_i hcur
+        rw [hcur] at hp
+        have := ih w (res ++ [true]) k j rest hc hp
+        rw [this, hcur]
+      · rename_i k0 ks hcur
+        rw [hcur] at hp
+        simp only [Option.some.injEq, Prod.mk.injEq] at hc
+        rcases hp with ⟨hooks, fb', ne', hp⟩ | ⟨rt, err, hp⟩
+        · simp only [Phase.checking.injEq] at hp
+          rw [hcur, ← hc.1, hp.1]
+        · cases hp
+    | complete rt err =>
+      unfold advance at hc hp
+      split at hc
+      · rename_i hcur
+        rw [hcur] at hp
+        have := ih w res k j rest hc hp
+        rw [this, hcur]
+      · rename_i k0 ks hcur
+        rw [hcur] at hp
+        simp only [Option.some.injEq, Prod.mk.injEq] at hc
+        rcases hp with ⟨hooks, fb', ne', hp⟩ | ⟨rt', err', hp⟩
+        · cases hp
+        · simp only [Phase.completing.injEq] at hp
+          rw [hcur, ← hc.1, hp.1]
+    | load rules noop nx =>
+      simp [advance] at hc
+
+theorem startRoll_keeps_list (w : World) (t : WT) (hs : List Nat) : (startRoll w t hs).1.cur = w.cur := by
+  cases hs with
+  | nil => exact advance_keeps_list _ _ _
+  | cons h r => exact world_bind_keeps_list _ _ _
+
+theorem afterCall_keeps_list (w : World) (t : WT) (k : Nat) (b won : Bool) : (afterCall w t k b won).1.cur = w.cur := by
+  unfold afterCall
+  cases t.phase with
+  | checking rest hooks fb ne =>
+    cases b with
+    | false => simpa using startRoll_keeps_list _ _ _
+    | true =>
+      cases rest with
+      | cons k2 ks => simpa using world_bind_keeps_list _ _ _
+      | nil =>
+        cases fb with
+        | true => simpa using startRoll_keeps_list _ _ _
+        | false => simpa using advance_keeps_list _ _ _
+  | rolling rest => exact startRoll_keeps_list _ _ _
+  | completing rest rt err =>
+    cases rest with
+    | cons k2 ks => exact world_bind_keeps_list _ _ _
+    | nil => exact advance_keeps_list _ _ _
+  | idle => exact advance_keeps_list _ _ _
+  | loading _ _ _ => exact advance_keeps_list _ _ _
+  | rebuilding _ _ => exact advance_keeps_list _ _ _
+
+/-- the steps of a load before its last one change nothing at all: the rebuild is invisible until it is published -/
+theorem rebuild_invisible_until_published (w : World) (t : WT) :
+    (∀ rules nx, t.phase = .loading rules false nx → nx ≠ 0 → (t.step w).1 = w) ∧
+    (∀ rules left, t.phase = .rebuilding rules left → 1 < left → (t.step w).1 = w) := by
+  constructor
+  · intro rules nx hp hnx
+    unfold WT.step
+    rw [hp]
+    simp [hnx]
+  · intro rules left hp hl
+    unfold WT.step
+    rw [hp]
+    have : ¬ left ≤ 1 := by omega
+    simp [this]
+
+/-- **old or new, never a mixture**: one step of any harness thread either leaves the published list as it is, or it is
+    the step that completes a rule load and the list becomes the complete rebuilt list -/
+theorem wtstep_list (w : World) (t : WT) :
+    (t.step w).1.cur = w.cur ∨
+    (∃ rules, (t.step w).1.cur = (w.rebuild rules).cur ∧
+      ((∃ nx, t.phase = .loading rules false nx ∧ nx = 0) ∨ (∃ left, t.phase = .rebuilding rules left ∧ left ≤ 1))) := by
+  unfold WT.step
+  split
+  · rename_i rules noop nx hp
+    split_ifs with h1 h2
+    · exact Or.inl (advance_keeps_list _ _ _)
+    · refine Or.inr ⟨rules, advance_keeps_list _ _ _, Or.inl ⟨nx, ?_, h2⟩⟩
+      have : noop = false := by simpa using h1
+      rw [hp, this]
+    · exact Or.inl rfl
+  · rename_i rules left hp
+    split_ifs with h1
+    · exact Or.inr ⟨rules, advance_keeps_list _ _ _, Or.inr ⟨left, hp, h1⟩⟩
+    · exact Or.inl rfl
+  · split
+    · exact Or.inl rfl
+    · split
+      · split_ifs
+        · exact Or.inl ((afterCall_keeps_list _ _ _ _ _).trans (world_step_keeps_list _ _ _))
+        · exact Or.inl (world_step_keeps_list _ _ _)
+      · exact Or.inl (world_step_keeps_list _ _ _)
+
+/-- a tick does not change the list either -/
+theorem world_tick_keeps_list (w : World) (ms : Nat) : (w.tick ms).cur = w.cur := rfl
 
 /-! ## non-vacuity -/
 
